@@ -490,6 +490,10 @@ DEMES_CASES = [
     ('tree5', ['z5', 'a6', 'q2', 'm3', 'b4'], [2, 2, 2, 2, 2]), ('tree5', ['q2', 'z5', 'b4', 'a6'], [2, 2, 2, 2]),
     ('branch', ['main', 'side'], [3, 3]), ('pulse', ['north', 'east'], [2, 3]), ('pulse', ['east', 'north'], [2, 2]),
     ('admix', ['uno', 'dos', 'mix'], [2, 2, 2]), ('admix', ['mix', 'uno'], [2, 2]),
+    ('file:gutenkunst_ooa', ['YRI', 'CEU', 'CHB'], [2, 2, 2]), ('file:gutenkunst_ooa', ['CHB', 'YRI'], [2, 3]), ('file:gutenkunst_ooa', ['CEU'], [4]),
+    ('file:browning_america', ['AFR', 'EUR', 'EAS', 'ADMIX'], [2, 2, 2, 2]), ('file:browning_america', ['ADMIX', 'AFR'], [2, 2]),
+    ('file:offshoots', ['ancestral', 'offshoot1', 'offshoot2'], [2, 2, 2]), ('file:offshoots', ['offshoot2', 'ancestral'], [2, 2]),
+    ('file:bottleneck', ['our_population'], [4]), ('file:two_epoch', ['deme0'], [3]), ('file:cloning_example', ['pop1', 'pop2'], [2, 2]),
 ]
 
 
